@@ -1522,6 +1522,7 @@ fn main() {
         r.sample(sc.to_json());
     }
 
+    let quick = r.quick();
     let results: Vec<(usize, Option<Out>)> = all
         .par_iter()
         .enumerate()
@@ -1529,7 +1530,9 @@ fn main() {
             if r.over_budget_frac(0.9) {
                 return (i, None);
             }
-            (i, Some(run_scenario(sc, cont_depth)))
+            // quick tier: the registration-order twin of a scenario runs the 3-pass history only
+            let d = if quick && sc.reg_rev { 0 } else { cont_depth };
+            (i, Some(run_scenario(sc, d)))
         })
         .collect();
     let mut done = 0usize;
